@@ -121,6 +121,8 @@ impl ValidCase {
                 size: e.vsize,
                 shape: match e.uniform {
                     Some((n, v, _)) if i < n => v,
+                    // right after the warm-up: the uniform shape with exactly one property changed at a time
+                    Some((n, v, _)) if i < n + 16 => v ^ (1u8 << ((i - n) % 8)),
                     _ => {
                         if e.shapes {
                             (i.wrapping_mul(37) % 256) as u8
@@ -139,6 +141,7 @@ impl ValidCase {
                 size: e.asize,
                 shape: match e.uniform {
                     Some((n, _, a)) if i < n => a,
+                    Some((n, _, a)) if i < n + 16 => a ^ (1u8 << ((i - n) % 8)),
                     _ => {
                         if e.shapes {
                             (i.wrapping_mul(29) % 256) as u8
@@ -521,7 +524,8 @@ pub fn audio_frame(cfg: &CfgGene, g: &AGene, idx: usize) -> (Vec<u8>, Vec<u8>) {
             extra: if g.shape & 8 != 0 { 3 } else { 0 },
             fill: (g.shape >> 4) & 1,
             corrupt: 0,
-            misc: (g.shape as u16).wrapping_mul(0x0123) ^ g.size,
+            // independent of bit 0 of the shape: two shapes that differ in bit 0 differ in the protection flag only
+            misc: ((g.shape >> 1) as u16).wrapping_mul(0x0123) ^ (g.size & !1),
         };
         let (f, exp) = ag.build(tag);
         (f, exp.expect("uncorrupted ADTS gene must be valid"))
